@@ -332,6 +332,19 @@ def run(m: Model, r: Report, tier: str) -> None:
                     r.check(0 <= rg[0] and rg[1] < 2 ** w, "R9", f"{f.qualname}#{callee.name}.{what}",
                             f"{what} of {callee.name} is drawn from [{rg[0]}, {rg[1]}] but is packed into {w} bits: the serialiser raises for values outside and the "
                             "server drops the connection", loc=f"{f.module.relpath}:{n.lineno}")
+                    # ... and lie inside the range the response constructor itself admits (check_range guard on that parameter)
+                    if what == par:
+                        init_ = callee.methods.get("__init__")
+                        guard_ = None
+                        for c_ in (ast.walk(init_.node) if init_ is not None else []):
+                            if isinstance(c_, ast.Call) and ast.unparse(c_.func) == "check_range" and len(c_.args) == 4 and ast.unparse(c_.args[0]) == par:
+                                lo_, hi_ = m.try_fold(init_.module, c_.args[2]), m.try_fold(init_.module, c_.args[3])
+                                if isinstance(lo_, int) and isinstance(hi_, int):
+                                    guard_ = (lo_, hi_)
+                        if guard_ is not None:
+                            r.check(guard_[0] <= rg[0] and rg[1] <= guard_[1], "R9", f"{f.qualname}#{callee.name}.{what}:constructor-range",
+                                    f"{what} is drawn from [{rg[0]}, {rg[1]}] but {callee.name}.__init__ admits only [{guard_[0]}, {guard_[1]}]: for the values outside, building "
+                                    "the reply raises ValueError inside the request handler and the connection is dropped", loc=f"{f.module.relpath}:{n.lineno}")
     if n_r9 < 3:
         raise AnalysisError(f"only {n_r9} random integer response fields found in RandomUDSServer")
 
